@@ -151,6 +151,19 @@ def check_sanitise(rep, ix, m):
     rep.ob('R-C14-TABLE', f'{M}:_parse_file', 'each line is sanitised with that table and no other', ok, node=f, module=m)
 
 
+def check_row_length(rep, ix, rule='R-C14-REJECT'):
+    """the row-length test of the DAT parser is exact (shared with C12 / C20: an over-long row would run the transposition past
+    the columns and raise IndexError, which neither the trial parse nor the file-type gate catches)"""
+    m = ix.module(M)
+    p = ix.get_func(M, '_parse_file')
+    site = f'{M}:_parse_file'
+    guards = {show(nf(t)): (neg, node) for t, neg, node in common.reject_guards(p)}
+    k = common.nfs('len(values) != len(data_table)')
+    ok = k in guards and not guards[k][0] and 'ExceptionDATRead' in _n(guards[k][1].body[0])
+    rep.ob(rule, site, 'a data row whose value count differs from the column count is refused with ExceptionDATRead', ok,
+           found=str([x for x in guards if 'values' in x]), required='if len(values) != len(data_table): raise ExceptionDATRead (exact: neither short nor long rows pass)', node=p, module=m)
+
+
 def run(rep, ix, tier):
     m = ix.module(M)
     imports.check_import_closure(rep, ix, 'R-IMP', [M])
@@ -261,6 +274,19 @@ def run(rep, ix, tier):
     r = common.returns_of(pf)
     ps = [a.arg for a in pf.args.args]
     rep.ob('R-C14-ORDER', f'{M}:parse_file', 'the public parser reads every row', len(r) == 1 and _n(r[0].value) == f'_parse_file({ps[0]},{ps[1]},{ps[2]},break_after_first_row=False)', node=pf, module=m)
+    # every line of the text is parsed, the last one too when the text does not end with a line terminator
+    fo = p.args.args[0].arg
+    loops_l = [n for n in walk_no_nested(p) if isinstance(n, ast.For) and fo in _n(n.iter)]
+    src_ok = False
+    it_txt = ''
+    if len(loops_l) == 1:
+        it = loops_l[0].iter
+        if isinstance(it, ast.Call) and _n(it.func) == 'enumerate' and it.args:
+            it = it.args[0]
+        it_txt = _n(it)
+        src_ok = it_txt in (f'{fo}.readlines()', fo, f'{fo}.read().splitlines()', f'{fo}.read().splitlines(keepends=True)', f'iter({fo})')
+    rep.ob('R-C14-ORDER', site, 'the parser walks every line of the file object', src_ok, found=it_txt or f'{len(loops_l)} loop(s) over the file',
+           required=f'{fo}.readlines() / iteration / read().splitlines() - no slice of the line list', node=loops_l[0] if loops_l else p, module=m)
     # the parse starts at the beginning of the file whoever calls it and whatever was read from the object before
     def rewinds_first(fn):
         first = None
